@@ -368,6 +368,7 @@ fn short_op(op: &Op) -> String {
         Op::Bg { hold, life_ns, .. } => format!("bg hold={} {}", hold, crate::runcli::dur(*life_ns)),
         Op::Touch { rel } => format!("touch {}", rel),
         Op::CloseStdin => "close stdin".into(),
+        Op::DeepTree { levels, name_len } => format!("tree {}x{}", levels, name_len),
     }
 }
 
